@@ -167,12 +167,26 @@ EncoderSound ==
          /\ \A t \in 1..Len(hs) : /\ WellFormed(hs[t])
                                   /\ DecodeHeader(b, hs[t]) = out.vp
                                   /\ (LevelAccepts(HeaderRec(b, hs[t])) \/ DeviationLevelVersion(HeaderRec(b, hs[t])))
+         \* serialised one after the other in generation order (each header owning its parse parameters),
+         \* every header still carries its own minimal version - the one HeaderRec was judged with
+         /\ SerialiseInOrder(out.ft.profile, OwnCells(hs)) = MinimalVersions(out.ft.profile, hs)
          \* the encoder's choice of base formats covers every format that can work
          /\ Len(hs) > 0 => b \in AllowedBases(cols, out.vp)
     \* not vacuous: the configuration has at least one header
     /\ \E b \in Bases : Len(HeadersForBase(cols, out.vp, b)) > 0
 
 RegularOut == stage = Done => Regular(out.vp, out.pcm)
+
+(* EXPECTED TO FAIL (run separately): no configuration whose alternative headers need DIFFERENT versions, *)
+(* i.e. for which sharing one parse-parameters object between the yielded headers (the named deviation     *)
+(* SeqHeaderOps!DeviationAliasedParseParameters) would label a later header with the first one's version.   *)
+(* Its violation shows that the enumerated space can tell aliased from owned parse parameters (UHD / HDR     *)
+(* colour: compact header version 1 or 2, explicit colour spec 5..7 or primaries / matrix 4 version 3).     *)
+NoAliasingHazard ==
+  stage = Done =>
+    LET cols == MatchingColumns(CV(out.level, out.pcm, out.vp, out.ft)) IN
+    \A b \in Bases : LET hs == HeadersForBase(cols, out.vp, b) IN
+                     SerialiseInOrder(out.ft.profile, SharedCell(hs)) = MinimalVersions(out.ft.profile, hs)
 
 (* EXPECTED TO FAIL on the real level table (run separately, counterexample stored as evidence of the   *)
 (* known finding): no configuration hits the level/version deviation                                    *)
